@@ -196,6 +196,7 @@ const (
 	OpSeeIface   // note the Labeler visible through DI
 	OpInvoke     // c.Invoke(func(Token) ...) from inside the handler: a nested resolution in request scope
 	OpApply      // c.Apply(&struct{... `inject`}) in request scope
+	OpSetCL      // announce a Content-Length the handler may never honour
 	OpSeePath    // note the request path and method the handler sees
 	OpSeeBody    // read the request body through Request().Body() and note it
 	OpMapRH      // map a request-scoped ReturnHandler that marks what it renders
